@@ -267,6 +267,10 @@ def oracle_random(c):
                 try:
                     o = observe(ev_all.evaluate(a))
                     cached = o[1] if o[0] in ('num', 'text', 'bool') else None
+                    if cached == '':
+                        # SpreadsheetML stores an empty text result as <v></v>, which the XML layer (openpyxl) reads as "no value": the file
+                        # format as read cannot tell it from a formula without a cached result, so none is written and none expected
+                        cached = None
                 except Exception:      # noqa
                     cached = None
             specs[sh].append(dict(r=coord, kind='f', f=v[1:], cached=cached))
